@@ -16,6 +16,16 @@ them, leading/trailing blanks, tabs, carriage returns and blank lines included â
 terminate the file), everything else is copied; the result must be the same for every declaration order; a
 reference is reported unused iff no token spells it.
 
+Degenerate but valid reference shapes are generated too: a file part that is present but EMPTY (`Producer/:ref`,
+value `<dir>/`), `.`, a nested path with a trailing or doubled separator, `./file`; direct references with a
+trailing / doubled separator or a `.` segment (their value is the normalised path).  The model reads the TEXT of
+every declared reference itself (`ArgSubst.parseRef`: split at the first `/`, file part `none` vs `""`) and its
+spellings / file part are compared with the real `DataReference` on every case.
+
+Contents have no length bound: besides the short ones, size classes around powers of two (4 KiB, 64 KiB +-1,
+128 KiB +-1, 200 KB; ASCII and 2-byte characters) are written for :output (file, stdout, direct) and :loopoutput
+references (`big_scenario`; the case stores a compact description `{"big": n, ...}` that `ctext` expands).
+
 Values are not opaque: files are written byte-exact into the working directories (also of the loop instances of a
 real DoWhile, for ``:loopref``/``:loopoutput`` and for ``:ref``/``:output`` through a placeholder), the real
 ``DataReference.resolve`` reads them, the model gets the *raw* contents and computes the value itself
@@ -54,8 +64,38 @@ def read_ref(text, consumer_stage):
         relative = "%s:%s" % (path, method)
         absolute = "stage%d.%s" % (st, relative)
     kind = 'ref' if method in ('ref', 'loopref') else 'output' if method in ('output', 'loopoutput') else 'other'
-    return dict(decl=text, abs=absolute, rel=relative, stage=st, path=path, method=method, kind=kind,
+    # the file part: None when there is none (no '/'), "" for a bare trailing '/'; direct references have none
+    fpart = None if (direct or '/' not in path) else path.split('/', 1)[1]
+    return dict(decl=text, abs=absolute, rel=relative, stage=st, path=path, method=method, kind=kind, file=fpart,
                 relActive=(st is None or st == consumer_stage))
+
+
+_BIG = {}
+
+
+def ctext(v):
+    """contents of a file as text.  A dict `{"big": n, "unit": "x"|"Âµ", "lead": s, "trail": s}` stands for
+    lead + (numbered tokens `x0000001 x0000002 â€¦` cut after n characters) + trail: long contents without a period,
+    so that a cut anywhere is visible; None = the file does not exist"""
+    if not isinstance(v, dict):
+        return v
+    key = (v["big"], v.get("unit", "x"), v.get("lead", ""), v.get("trail", ""))
+    if key not in _BIG:
+        if len(_BIG) > 40:
+            _BIG.clear()
+        n, unit = key[0], key[1]
+        body = "".join("%s%07d " % (unit, i) for i in range(n // 9 + 2))[:n]
+        if body.endswith(" "):
+            body = body[:-1] + "~"
+        _BIG[key] = key[2] + body + key[3]
+    return _BIG[key]
+
+
+def fget(case, key):
+    v = case['files'].get(key)
+    if v is None and key.startswith('data/') and key[5:] in case.get('data', ()):
+        return 'x'        # Impl.run writes this default into every data/ file of the package without given contents
+    return ctext(v)
 
 
 def strip_final_newlines(text):
@@ -82,24 +122,46 @@ def places_of(ref, case):
     """(paths with the instance directory written $I, keys into case['files']) the reference denotes: one per loop
     instance for the loop methods, the latest loop instance for other methods on a looped producer, else one"""
     if ref['stage'] is None:
-        return ["$I/" + ref['path']], [ref['path']]
-    name, _, frel = ref['path'].partition('/')
+        # a direct reference denotes the normalised path below the instance directory
+        norm = os.path.normpath(ref['path'])
+        return ["$I/" + norm], [norm]
+    name = ref['path'].partition('/')[0]
+    frel = ref['file']                   # None: no file part; "": bare trailing separator
     if is_looped(ref, case):
         n = case['loop']['iters']
         its = range(n) if ref['method'] in ('loopref', 'loopoutput') else [n - 1]
         comps = ["%d#%s" % (i, name) for i in its]
     else:
         comps = [name]
-    paths = ["$I/stages/stage%d/%s%s" % (ref['stage'], c, ("/" + frel) if frel else "") for c in comps]
-    keys = ["stage%d.%s/%s" % (ref['stage'], c, frel or "out.stdout") for c in comps]
+    # the path is the working directory with the file part appended as written (an empty file part leaves the
+    # separator: `<dir>/`); only the :loopref branch of the code drops an empty file part
+    if frel is None or (frel == "" and ref['method'] == 'loopref'):
+        tail = ""
+    else:
+        tail = "/" + frel
+    paths = ["$I/stages/stage%d/%s%s" % (ref['stage'], c, tail) for c in comps]
+    keys = ["stage%d.%s/%s" % (ref['stage'], c, os.path.normpath(frel) if frel else "out.stdout") for c in comps]
     return paths, keys
+
+
+def locations_of(ref, case):
+    """working directories (with $I) of the component(s) the reference denotes â€” what the model joins the file
+    part to"""
+    name = ref['path'].partition('/')[0]
+    if is_looped(ref, case):
+        n = case['loop']['iters']
+        its = range(n) if ref['method'] in ('loopref', 'loopoutput') else [n - 1]
+        comps = ["%d#%s" % (i, name) for i in its]
+    else:
+        comps = [name]
+    return ["$I/stages/stage%d/%s" % (ref['stage'], c) for c in comps]
 
 
 def value_of(ref, case):
     """the reference's own value with the instance directory written $I (the oracle's statement)"""
     paths, keys = places_of(ref, case)
     if ref['kind'] == 'output':
-        contents = [case['files'].get(k) for k in keys]
+        contents = [fget(case, k) for k in keys]
         if any(c is None for c in contents):
             return ""                       # not produced yet
         if ref['method'] == 'loopoutput':
@@ -112,13 +174,16 @@ def source_of(ref, case):
     """what the model's DataReference.resolve is given: paths and RAW file contents"""
     paths, keys = places_of(ref, case)
     if ref['kind'] == 'output':
-        contents = [case['files'].get(k) for k in keys]
+        contents = [fget(case, k) for k in keys]
         if ref['method'] == 'loopoutput':
             return {"t": "files", "cs": contents}
         return {"t": "file", "c": contents[0]}
+    if ref['stage'] is None:
+        return {"t": "path", "p": paths[0]}
+    # references to components: the model joins the file part to the location(s) itself (refPath / loopRefPath)
     if ref['method'] == 'loopref':
-        return {"t": "paths", "ps": paths}
-    return {"t": "path", "p": paths[0]}
+        return {"t": "locs", "locs": locations_of(ref, case), "file": ref['file']}
+    return {"t": "loc", "loc": locations_of(ref, case)[0], "file": ref['file']}
 
 
 def judged_by_oracle(ref, case):
@@ -127,7 +192,7 @@ def judged_by_oracle(ref, case):
     if ref['method'] != 'loopoutput':
         return True
     _, keys = places_of(ref, case)
-    return not any("\r" in (case['files'].get(k) or "") for k in keys)
+    return not any("\r" in (fget(case, k) or "") for k in keys)
 
 
 def my_refs(case, order=None):
@@ -234,7 +299,7 @@ class Impl:
         if dowhile is not None:
             with open(os.path.join(pkg_path, 'conf', 'dowhile.yaml'), 'w') as fh:
                 fh.write(dowhile)
-        data = {k: v for k, v in case['files'].items() if k.startswith('data/')}
+        data = {k: ctext(v) for k, v in case['files'].items() if k.startswith('data/')}
         for d in case.get('data', []):
             data.setdefault('data/' + d, 'x')
         for k, v in data.items():
@@ -271,11 +336,11 @@ class Impl:
                 target = os.path.join(wd, m.group(3))
                 os.makedirs(os.path.dirname(target), exist_ok=True)
                 with open(target, 'wb') as fh:
-                    fh.write(content.encode('utf-8'))
+                    fh.write(ctext(content).encode('utf-8'))
             spec = exp.experimentGraph.graph.nodes['stage%d.%s' % (case['stage'], case['consumer'])][
                 'componentSpecification']
-            seen = [dict(abs=r.absoluteReference, rel=r.relativeReference, stage=r.stageIndex, method=r.method)
-                    for r in spec.dataReferences]
+            seen = [dict(abs=r.absoluteReference, rel=r.relativeReference, stage=r.stageIndex, method=r.method,
+                         file=r.fileRef) for r in spec.dataReferences]
             outs = []
             for args in [canonical] + list(arg_list):
                 spec.setOption('#command.arguments', args)
@@ -311,6 +376,23 @@ FAMILIES = [
     ["x", "xx", "xxx", "yx"],
 ]
 FILES = [None, None, "out.txt", "t/out.txt", "out"]
+# degenerate but valid file parts.  For a path value (:ref, :loopref, :copy â€¦): present but empty (`P/:ref`, the
+# contents-of-the-directory spelling), `.`, a directory with trailing separator, doubled separator inside;
+# for a contents value (:output, :loopoutput) only shapes that still name a file.
+# (A file part that STARTS with a separator, `P//x`, is not generated: os.path.join then drops the producer.)
+ODD_DIR_FILES = ["", "", ".", "t/", "t//out.txt", "./out.txt", "t/./", "t/.."]
+ODD_FILE_FILES = ["./out.txt", "t//out.txt", "t/./out.txt"]
+ODD_DIRECT = ["data/%s/", "data//%s", "data/./%s", "data/%s/."]
+
+
+def pick_file(rng, odd=0.3):
+    """file part of a candidate reference and the methods it can carry"""
+    if rng.random() < odd:
+        if rng.random() < 0.65:
+            return rng.choice(ODD_DIR_FILES), False
+        return rng.choice(ODD_FILE_FILES), True
+    f = rng.choice(FILES)
+    return f, True
 CONTENTS = ["hello", "A:ref", "stage0.A:ref x", "BA:ref -k", "v=1\n", "", "line1\nline2\n\n", "data/A:ref",
             ":ref", "1 2 3\n", "gen:ref regen:ref", "x:ref xx:ref stage1.x:ref", "stage0.run/out.txt:output"]
 # white space that belongs to a file's contents: before the text, inside it, after it, and the terminating newlines
@@ -330,6 +412,11 @@ def gen_content(rng):
 
 def content_tags(text):
     tags = []
+    nbytes = len(text.encode("utf-8"))
+    if nbytes > 65536:
+        tags.append("content:>64KiB")
+    elif nbytes >= 4096:
+        tags.append("content:4KiB..64KiB")
     if text == "":
         tags.append("content:empty")
     elif text.strip() == "":
@@ -379,9 +466,12 @@ def gen_scenario(rng):
     files = {}
     cands = []
     for st, name in producers:
-        for f in rng.sample(FILES, 2):
+        for _ in range(2):
+            f, file_ok = pick_file(rng)
             path = name if f is None else name + "/" + f
             meths = ["ref", "ref", "ref"] + (["output", "output"] if f is not None else ["output"]) + ["copy", "link"]
+            if not file_ok:
+                meths = ["ref", "ref", "ref", "copy", "link"]      # names a directory: no contents value
             spell = rng.choice(["abs", "abs", "rel"]) if st == k else "abs"
             cands.append((("stage%d." % st if spell == "abs" else "") + path + ":" + rng.choice(meths), st, name, f))
     loop = None
@@ -392,14 +482,20 @@ def gen_scenario(rng):
         if free:
             loop = dict(stage=ls, names=rng.sample(free, rng.randint(1, min(2, len(free)))), iters=rng.randint(1, 3))
             for name in loop['names']:
-                for f in rng.sample(FILES, 2):
+                for _ in range(2):
+                    f, file_ok = pick_file(rng)
                     path = name if f is None else name + "/" + f
                     meths = ["loopref", "loopoutput", "loopoutput", "ref", "output", "output"]
+                    if not file_ok:
+                        meths = ["loopref", "loopref", "ref"]
                     spell = rng.choice(["abs", "abs", "rel"]) if ls == k else "abs"
                     cands.append((("stage%d." % ls if spell == "abs" else "") + path + ":" + rng.choice(meths),
                                   ls, name, f))
     for d in data:
-        cands.append(("data/%s:%s" % (d, rng.choice(["ref", "output", "output"])), None, d, None))
+        shape = rng.choice(ODD_DIRECT) if rng.random() < 0.3 else "data/%s"
+        cands.append(((shape % d) + ":" + rng.choice(["ref", "output", "output"]), None, d, None))
+    if data and rng.random() < 0.15:
+        cands.append(("data/:ref", None, "", None))
     rng.shuffle(cands)
     # make sure the interesting kinds are declared: a reference to a looped producer when there is a loop (an
     # aggregating one most of the time), and usually one whose value is a file's contents
@@ -473,6 +569,61 @@ def gen_segs(rng, scen, style):
 
 STYLES = ["each-once", "abs", "rel", "repeat", "subset", "noisy", "noisy"]
 
+# sizes (bytes of the file) around powers of two: a value is the WHOLE contents at every length
+BIG_SIZES = [65537, 131072, 65536, 4096, 65535, 200000, 131073, 4097, 131071, 4095, 98304, 70001]
+
+
+def big_content(rng, size, unit=None):
+    unit = unit or rng.choice(["x", "x", "x", "Âµ"])
+    lead = rng.choice(["", "", " ", "\n", "\t"])
+    trail = rng.choice(["\n", "\n", "", "\n\n", " \n"])
+    n = size - len(lead) - len(trail)
+    if unit == "Âµ":
+        # one 2-byte character per 9-character token: n characters are about n * 10 / 9 bytes
+        n = n * 9 // 10
+    return {"big": n, "unit": unit, "lead": lead, "trail": trail}
+
+
+def big_scenario(rng, i):
+    """few references, long contents: an :output reference to a file / to stdout / to a direct file and a
+    :loopoutput over 2 loop instances, sizes from BIG_SIZES (rotating with i so that every run has values above
+    64 KiB and above 128 KiB of every kind), one :ref next to them"""
+    k = 1
+    producers = [[0, "A"], [0, "BA"], [1, "A"]]
+    kinds = ["file", "stdout", "direct", "loop"]
+    first = kinds[i % 4]
+    second = rng.choice([x for x in kinds if x != first] + ["none"])
+    refs, files, data, loop = [], {}, [], None
+
+    def add(kind, size):
+        nonlocal loop
+        if kind == "file":
+            refs.append("stage0.A/big.txt:output")
+            files["stage0.A/big.txt"] = big_content(rng, size)
+        elif kind == "stdout":
+            refs.append(rng.choice(["stage0.BA:output", "stage1.A:output", "A:output"]))
+            r = read_ref(refs[-1], k)
+            files["stage%d.%s/out.stdout" % (r['stage'], r['path'])] = big_content(rng, size)
+        elif kind == "direct":
+            data.append("big")
+            refs.append(rng.choice(["data/big:output", "data/big:output", "data//big:output"]))
+            files["data/big"] = big_content(rng, size)
+        elif kind == "loop":
+            loop = dict(stage=0, names=["AB"], iters=2)
+            f = rng.choice([None, "o.txt"])
+            refs.append("stage0.AB%s:loopoutput" % ("/" + f if f else ""))
+            for it in range(2):
+                files["stage0.%d#AB/%s" % (it, f or "out.stdout")] = big_content(rng, size if it else 4096, unit="x")
+    add(first, BIG_SIZES[(i // 4 + i) % len(BIG_SIZES)] if i >= 4 else [65537, 131073, 70001, 65537][i])
+    if second != "none":
+        add(second, rng.choice(BIG_SIZES))
+    refs.append(rng.choice(["stage0.BA:ref", "A:ref", "stage0.A/:ref"]))
+    rng.shuffle(refs)
+    scen = dict(stage=k, consumer="C", producers=producers, data=data, files=files, refs=refs)
+    if loop:
+        scen['loop'] = loop
+    return scen
+
 CORPUS = [
     # DESIGN section 8 #4: one producer's name is a suffix of another's, relative spellings
     dict(stage=0, consumer="C", producers=[[0, "A"], [0, "BA"]], data=[], files={}, refs=["A:ref", "BA:ref"],
@@ -517,9 +668,24 @@ CORPUS = [
 
 def model_request(case, order, args):
     refs = my_refs(case, order)
+    # the model reads the declared TEXT itself (ArgSubst.declOfText); that it is a reference to a component or a
+    # direct one is decided by the loader and given
     return {"op": "resolve", "args": args,
-            "refs": [dict(abs=r['abs'], rel=r['rel'], relActive=r['relActive'], kind=r['kind'],
+            "refs": [dict(text=r['decl'], consumer=case['stage'], direct=r['stage'] is None,
                           source=source_of(r, case)) for r in refs]}
+
+
+def big_detail(expected, got, args):
+    """failure detail without megabytes of text"""
+    if expected is None or (len(expected) < 3000 and len(got) < 3000):
+        return dict(expected=expected, got=got, args=args)
+    i = 0
+    n = min(len(expected), len(got))
+    while i < n and expected[i] == got[i]:
+        i += 1
+    return dict(args=args, expected_length=len(expected), got_length=len(got), identical_up_to=i,
+                expected_there=expected[max(0, i - 40):i + 40], got_there=got[max(0, i - 40):i + 40],
+                expected_tail=expected[-60:], got_tail=got[-60:])
 
 
 def orders_of(ctx, refs, limit):
@@ -562,14 +728,31 @@ def check_scenario(ctx, impl, scen, seg_lists, perm_limit, label):
             vtags.add("method:" + r['method'] + ("@placeholder" if is_looped(r, base) else ""))
             if r['kind'] == 'output':
                 for key in places_of(r, base)[1]:
-                    c = base['files'].get(key)
+                    c = fget(base, key)
                     vtags.update(["content:missing"] if c is None else content_tags(c))
         if base.get('loop'):
             vtags.add("loop:iters=%d" % base['loop']['iters'])
         ctx.compare("spec.dataReferences spellings == harness reading of the declaration",
                     dict(base, refs=list(order), segs=[]),
-                    [dict(abs=r['abs'], rel=r['rel'], stage=r['stage'], method=r['method']) for r in mine],
+                    [dict(abs=r['abs'], rel=r['rel'], stage=r['stage'], method=r['method'], file=r['file'])
+                     for r in mine],
                     res["seen"])
+        sp = ctx.model([{"op": "spell", "text": r['decl'], "consumer": base['stage'], "direct": r['stage'] is None}
+                        for r in mine])
+        if sp is not None:
+            ctx.compare("DataReference (absoluteReference, relativeReference, stage, fileRef, method) == ArgSubst.parseRef",
+                        dict(base, refs=list(order), segs=[]),
+                        [dict(abs=m_.get("abs"), rel=m_.get("rel"), stage=m_.get("stage"), method=m_.get("method"),
+                              file=m_.get("file")) for m_ in sp],
+                        res["seen"])
+            for r in mine:
+                if r['file'] == "":
+                    ctx.tag("shape:empty-file-part")
+                elif r['file'] is not None and (r['file'].endswith("/") or "//" in r['file'] or
+                                                "." in r['file'].split("/")):
+                    ctx.tag("shape:odd-file-part")
+                elif r['stage'] is None and os.path.normpath(r['path']) != r['path']:
+                    ctx.tag("shape:odd-direct-path")
         for ai, (segs, args) in enumerate(zip(seg_lists, arg_list)):
             case = dict(base, refs=list(order), segs=segs)
             out = res["outs"][ai]
@@ -585,7 +768,7 @@ def check_scenario(ctx, impl, scen, seg_lists, perm_limit, label):
             elif not ambiguous:
                 if out["out"] != exp_out:
                     ctx.fail("reference-not-replaced-by-its-own-value-or-other-text-changed", case,
-                             dict(expected=exp_out, got=out["out"], args=args))
+                             big_detail(exp_out, out["out"], args))
                 elif sorted(out["unused"]) != sorted(exp_unused):
                     ctx.fail("wrong-set-of-unused-references", case,
                              dict(expected=exp_unused, got=out["unused"], args=args))
@@ -787,6 +970,12 @@ def run(ctx):
             scen = gen_scenario(rng)
             seg_lists = [gen_segs(rng, scen, rng.choice(STYLES)) for _ in range(nargs)]
             complete_all &= check_scenario(ctx, impl, scen, seg_lists, 24, "generated")
+        # long contents (few cases: every declaration order is its own experiment and the strings are long)
+        nbig = 8 if quick else 36
+        for i in range(nbig):
+            scen = big_scenario(rng, i)
+            seg_lists = [gen_segs(rng, scen, st) for st in ("each-once", rng.choice(["repeat", "abs", "noisy"]))]
+            complete_all &= check_scenario(ctx, impl, scen, seg_lists, 6, "generated-long-contents")
         ctx.extra["declaration_orders_exhaustive"] = bool(complete_all)
         ctx.extra["experiments_built"] = impl.n
     finally:
